@@ -9,7 +9,7 @@ From J5V.model Require Import J5sValidDecl J5sComments J5sEntity J5sRefSpec J5sA
 From J5V.gen Require ImportsGen.
 From J5V.model Require RulesDecl RulesWrite.
 From Coq Require Import ZArith.
-From J5V.proofs Require Import J5sProofs J5sContractProofs J5sLinkProofs J5sResolveProofs J5sResolveCompleteProofs J5sServiceProofs J5sTotalProofs J5sSymbolProofs J5sCompileProofs J5sSubPkgProofs J5sDepsProofs J5sNameProofs J5sTypeNameProofs J5sWitnessProofs J5sFullProofs StrcaseProofs J5sStrcaseProofs J5sInfraProofs J5sRefSpecProofs J5sRulesCompose J5sEntityProofs J5sCommentsProofs J5sValidDeclProofs J5sInfraDepsProofs.
+From J5V.proofs Require Import J5sProofs J5sContractProofs J5sLinkProofs J5sResolveProofs J5sResolveCompleteProofs J5sServiceProofs J5sTotalProofs J5sSymbolProofs J5sCompileProofs J5sSubPkgProofs J5sDepsProofs J5sNameProofs J5sTypeNameProofs J5sWitnessProofs J5sFullProofs J5sDecisionProofs StrcaseProofs J5sStrcaseProofs J5sInfraProofs J5sRefSpecProofs J5sRulesCompose J5sEntityProofs J5sCommentsProofs J5sValidDeclProofs J5sInfraDepsProofs.
 Import ListNotations.
 Local Open Scope N_scope.
 
@@ -51,6 +51,17 @@ Theorem C02_properties_contract : forall snake camel screaming ps ev path io num
      props_inline_ok snake camel screaming ps msgs enums).
 Proof. intros snake camel screaming. exact (proj1 (proj2 (convert_refines snake camel screaming))). Qed.
 Print Assumptions C02_properties_contract.
+
+(* ---- the two decision functions the model mirrors by hand, probed with the literals the
+   translator reads from their Go text (ImportsGen.decision_literals: every ==, !=, + with a
+   literal right operand): enum.go isExplicitZero - the option named by the literal, bare or with
+   the prefix on, is the explicit zero value, a longer name ending in it is not, and value 0 of a
+   compiled enum carries that name - and service.go checkListMethod - a reference to the package
+   / type named by the literals (written in full or through an import prefix) makes a list method,
+   whose response must have exactly <literal> array, of objects *)
+Theorem C02_decision_literals_agree : zero_probe (fun s => s) && list_probe = true.
+Proof. exact decision_literals_agree. Qed.
+Print Assumptions C02_decision_literals_agree.
 
 (* ---- enums: the declared options numbered in order after <PREFIX>UNSPECIFIED = 0 (the zero
    value may be spelled out as the first option: UNSPECIFIED or <PREFIX>UNSPECIFIED), for EVERY
